@@ -22,6 +22,13 @@ type observation struct {
 	msg        string // Error() of the returned error (may carry a wrapping prefix)
 	inner      string // Error() of the positioned error itself
 	panics     string // a panic of one of the rendering methods
+	message    string // Message() of the positioned error
+	utype      string // IncorrectUserType() of the positioned error
+	// for the facade leg (facade.go): the returned error, the positioned error as extracted and the same value
+	// after it has been rendered
+	err      error
+	de       jerr.DocumentError
+	rendered jerr.DocumentError
 }
 
 func observe(err error) (o observation) {
@@ -31,6 +38,7 @@ func observe(err error) (o observation) {
 	}
 	o.typ = fmt.Sprintf("%T", err)
 	o.pos = -1
+	o.err = err
 	defer func() {
 		if r := recover(); r != nil {
 			o.panics = fmt.Sprintf("PANIC %v", r)
@@ -46,10 +54,13 @@ func observe(err error) (o observation) {
 		return o
 	}
 	o.positioned = true
+	o.de, o.rendered = de, de
 	o.code, o.pos, o.file = de.ErrCode(), int(de.Position()), de.Filename()
+	o.message, o.utype = de.Message(), de.IncorrectUserType()
 	o.inner = de.Error()
 	o.line = de.Line()
 	o.src = de.SourceSubString()
+	o.rendered = de
 	return o
 }
 
